@@ -963,8 +963,8 @@ func (s *Store[K, V]) processSecondary() {
 			item.shard.mu.RUnlock(tk)
 			if err != nil {
 				s.secondaryCache.HandleAsyncError(err)
-				verifSecondaryProcessed()
-				continue
+				// the entry is dropped all the same: the policy has evicted it and no
+				// longer tracks it, leaving it in the map would let memory grow without bound
 			}
 			if item.reason == EVICTED {
 				item.shard.mu.Lock()
